@@ -230,9 +230,30 @@ def _chain(rc: RuleCtx, name: str, pop_signs):
     if len(seeds) != 1:
         raise AnalysisError(f"{fi.qualname}: cannot identify the chain stack")
     sname, seed = seeds[0]
-    ra = range_args(loop)
-    lo = fr.expr(ra[0], env) if ra and len(ra) == 2 else None
-    hi = fr.expr(ra[1], env) if ra and len(ra) == 2 else None
+    # the offered index: `for i in range(k, n)`, or the counter of `for i, p in enumerate(points[k:], start=k)`
+    from .common import bind_loop
+    from ..seqdom import subst_value
+    b_ = bind_loop(ev, fr, loop, env) if not range_args(loop) else None
+    extra_bind = {}
+    iname = loop.target.id if isinstance(loop.target, ast.Name) else None
+    if b_ is not None and isinstance(loop.target, ast.Tuple) and isinstance(loop.target.elts[0], ast.Name):
+        iname = loop.target.elts[0].id
+        J = b_.bindings.get(iname)
+        c_ = J.sub(b_.idx) if isinstance(J, Rat) else None
+        if c_ is None or c_.is_const() is None or len(b_.idx.atoms()) != 1:
+            raise AnalysisError(f"{fi.qualname}: the scan loop does not count the offered index ({ast.unparse(loop.iter)[:60]}) - shape not recognised")
+        lo, hi = b_.lo.add(c_), b_.hi.add(c_)
+        isym = ev.symbol(iname)
+        ren = {b_.idx.atoms()[0].name: isym.sub(c_)}
+        for k_, v_ in b_.bindings.items():
+            if k_ != iname:
+                extra_bind[k_] = subst_value(v_, ren)
+    elif iname is None:
+        raise AnalysisError(f"{fi.qualname}: scan loop header {ast.unparse(loop.iter)[:60]!r} has no recognised shape")
+    else:
+        ra = range_args(loop)
+        lo = fr.expr(ra[0], env) if ra and len(ra) == 2 else None
+        hi = fr.expr(ra[1], env) if ra and len(ra) == 2 else None
     nseed = len(seed.items)
     seed_ok = all(isinstance(x, Rat) and x.is_const() == j for j, x in enumerate(seed.items))
     if seed_ok and isinstance(lo, Rat) and lo.is_const() == nseed and isinstance(hi, Rat) and hi.equals(sym("n")):
@@ -241,9 +262,10 @@ def _chain(rc: RuleCtx, name: str, pop_signs):
         res.violation("H3", mod, fi.name, loop, "the scan does not offer every index 0..n-1 to the chain exactly once in ascending order",
                       f"seed {seed}, {ast.unparse(loop.iter)}", "seed [0..k-1] and range(k, len(points))", construct="offer order")
     w = _popping_while(fi, loop)
-    i = ev.symbol(loop.target.id)
+    i = ev.symbol(iname)
     benv = dict(env)
-    benv[loop.target.id] = i
+    benv[iname] = i
+    benv.update(extra_bind)
     benv[sname] = ev.symbol("stack", True)
     # temporaries hoisted in front of the popping loop (e.g. candidate = points[i])
     frp = Frame(ev, fi, 0)
